@@ -78,7 +78,7 @@ def filter_image_sep2d(image, fh, fv, impl='numpy', padding=None):
         raise ValueError('`fv` must be one-dimensional')
     elif fv.size == 0:
         raise ValueError('`fv` cannot have size 0')
-    elif fv.size > image.shape[0]:
+    elif fv.size > image.shape[1]:
         raise ValueError('`fv` can be at most `image.shape[1]`, got '
                          '{} > {}'.format(fv.size, image.shape[1]))
 
